@@ -94,26 +94,49 @@ func evsStr(a []NEv) string {
 	return "[" + strings.Join(ss, " ") + "]"
 }
 
-// decodeChunks feeds the chunks to a fresh parser (no expiry in between) and
+// decoder decodes byte strings with one reusable parser (reset before every
+// decode).  Not safe for concurrent use.
+type decoder struct {
+	p *tcell.VerifParser
+}
+
+func newDecoder(ti *terminfo.Terminfo, charset string, w, h int) (*decoder, error) {
+	p, err := tcell.VerifNewParser(CopyTI(ti), charset, w, h)
+	if err != nil {
+		return nil, err
+	}
+	return &decoder{p: p}, nil
+}
+
+// chunks feeds the chunks to the (reset) parser, no expiry in between, and
 // then lets the escape timeout expire.  It returns the events, the number of
 // bytes left buffered, and a panic value if the parser panicked.
-func decodeChunks(ti *terminfo.Terminfo, charset string, w, h int, chunks [][]byte) (evs []NEv, left int, pan any) {
+func (d *decoder) chunks(chunks [][]byte) (evs []NEv, left int, pan any) {
 	defer func() {
 		if e := recover(); e != nil {
 			pan = e
 		}
 	}()
-	p, err := tcell.VerifNewParser(CopyTI(ti), charset, w, h)
+	d.p.Reset()
+	for _, c := range chunks {
+		e, _ := d.p.Feed(c, false)
+		evs = append(evs, normEvs(e)...)
+	}
+	e, l := d.p.Feed(nil, true)
+	evs = append(evs, normEvs(e)...)
+	return evs, l, nil
+}
+
+func (d *decoder) whole(s []byte) ([]NEv, int, any) { return d.chunks([][]byte{s}) }
+
+// decodeChunks / decodeWhole use a fresh parser (slow: building the key table
+// dominates); kept for one-off decodes.
+func decodeChunks(ti *terminfo.Terminfo, charset string, w, h int, chunks [][]byte) (evs []NEv, left int, pan any) {
+	d, err := newDecoder(ti, charset, w, h)
 	if err != nil {
 		return nil, 0, err
 	}
-	for _, c := range chunks {
-		e, _ := p.Feed(c, false)
-		evs = append(evs, normEvs(e)...)
-	}
-	e, l := p.Feed(nil, true)
-	evs = append(evs, normEvs(e)...)
-	return evs, l, nil
+	return d.chunks(chunks)
 }
 
 func decodeWhole(ti *terminfo.Terminfo, charset string, w, h int, s []byte) ([]NEv, int, any) {
